@@ -190,7 +190,7 @@ pub fn check_attr_writers(rep: &mut Report, mode: &str, spec: &ASpec) {
     match spec.decodes_back(&raw) { Ok(true) => {}, o => rep.violate("C08:roundtrip", format!("decode(to_raw({:?})) = {:?}", short_spec(spec), o), wit.clone()) }
     rep.case(true, &want);
 }
-fn short_spec(s: &ASpec) -> String { let d = format!("{:?}", s); if d.len() > 120 { format!("{}..({} chars)", &d[..100], d.len()) } else { d } }
+fn short_spec(s: &ASpec) -> String { let d = format!("{:?}", s); if d.chars().count() > 120 { format!("{}..({} chars)", d.chars().take(100).collect::<String>(), d.chars().count()) } else { d } }
 
 // ------------------------------------------------------------------------------------------------ C08
 fn valid_utf8(b: &[u8]) -> bool { std::str::from_utf8(b).is_ok() }
@@ -427,7 +427,7 @@ pub fn builder_program(rep: &mut Report, mode: &str, rng: &mut Rng, check_paths:
         if c != built || o != built { rep.violate("C12:owned-clone", "clone()/into_owned() serialise differently from the original builder".into(), wit.clone()); }
     }
 }
-fn short_op(o: &Op) -> String { let d = format!("{:?}", o); if d.len() > 100 { d[..100].to_string() } else { d } }
+fn short_op(o: &Op) -> String { let d = format!("{:?}", o); if d.chars().count() > 100 { d.chars().take(100).collect() } else { d } }
 
 pub fn c03(tier: &str, seed: u64) -> Report {
     let mut rep = Report::new("c03", "random builder programs: 4 classes x methods {0,1,0x123,0x7ff,0x800,0xfff} x boundary / random 96-bit transaction ids x 1..7 operations drawn from {typed attribute of all 16 buildable types, raw attribute (lengths 0..9, 508..516, <40), SHA-1, SHA-256, fingerprint, into_owned, clone, duplicate}; build() vs independent serialisation (independent HMAC / CRC), length invariants, parse back with typed equality; non-trivial = at least one attribute accepted.");
